@@ -39,7 +39,7 @@ ORCH = 'chainables.orchestrate'
 
 
 def run(ctx: Ctx):
-  for r in (r1, r2, r3, r4):
+  for r in (r1, r2, r3, r4, r6):
     ctx.guard(r)
   from mlmverif.props import c09
   ctx.include('R-C03-5', 'the sharded strategies (thread sub-shards, make(shard='
@@ -296,10 +296,57 @@ def r4(ctx: Ctx):
   ctx.floor(rule, 4)
 
 
+ONEPASS_SCOPE = ('chainables.transform', 'chainables.orchestrate', 'chainables.tree_fns',
+                 'chainables.courier_worker', 'aggregates.base', 'utils.iter_utils', 'chainables.io')
+
+
+def r6(ctx: Ctx, scope=ONEPASS_SCOPE, rule='R-C03-6', floor=20):
+  ctx.rule(rule, 'single-pass discipline: a one-shot iterable (generator object,'
+           ' map/zip/filter/iter object, elements of a list of generators, a'
+           ' parameter typed Iterable/Iterator) is never consumed inside a'
+           ' loop or comprehension it was created outside of, unless it was'
+           ' materialised (list/tuple) or wrapped in the shared thread-safe'
+           ' iterator first — a second stage/aggregate/shard would silently'
+           ' see an empty stream (states streamed from shards, slices shared'
+           ' between aggregates)')
+  from mlmverif.onepass import OnePass
+  op = OnePass(ctx.repo)
+  n = 0
+  for mod in scope:
+    mi = ctx.repo.module(mod)
+    fns = list(mi.functions.values()) + [m for c in mi.classes.values() for m in c.methods.values()]
+    for fi in fns:
+      todo = [fi]
+      for s_ in ast.walk(fi.node):
+        if s_ is not fi.node and isinstance(s_, (ast.FunctionDef, ast.AsyncFunctionDef)):
+          todo.append(FuncInfo(fi.module, f'{fi.qualname}.{s_.name}', s_, fi.cls))
+      for f in todo:
+        before = op.analysed_sources
+        res = op.analyse(f)
+        if op.analysed_sources == before:
+          continue
+        n += 1
+        if not res:
+          ctx.ok(rule, f, f'{f.qualname}: one-shot iterables consumed once', f.node)
+        for node, msg in res:
+          ctx.fail(rule, f, f'{f.qualname}: one-shot iterable consumed once', msg, node=node)
+  ctx.floor(rule, floor, n)
+
+
 from mlmverif.selfcheck import B, OK  # noqa: E402
 
 _T = 'chainables/transform.py'
 VARIANTS = [
+    B('chained-merge-streams-states-to-every-stage', _T,
+      '    states = list(states)\n    if strict_states_cnt and len(states) != strict_states_cnt:',
+      '    if strict_states_cnt and False:', 'R-C03-6'),
+    B('slices-hoisted-as-generators', _T,
+      '    for output_key, tree_agg_fn in self.agg_fns.items():\n      try:',
+      '    batch_slices = [(slicer, slicer.iterate_and_slice(inputs)) for slicer in self.slicers]\n    for output_key, tree_agg_fn in self.agg_fns.items():\n      for slicer, slices in batch_slices:\n        for slice_key, masks in slices:\n          pass\n      try:',
+      'R-C03-6'),
+    OK('slices-hoisted-as-lists', _T,
+       '    for output_key, tree_agg_fn in self.agg_fns.items():\n      try:',
+       '    batch_slices = [(slicer, list(slicer.iterate_and_slice(inputs))) for slicer in self.slicers]\n    for output_key, tree_agg_fn in self.agg_fns.items():\n      for slicer, slices in batch_slices:\n        for slice_key, masks in slices:\n          pass\n      try:'),
     B('thread-shards-skip-last', _T,
       '          for i in range(self.num_threads)\n      ]',
       '          for i in range(self.num_threads - 1)\n      ]', 'R-C03-1'),
